@@ -216,6 +216,156 @@ theorem C15_pyIndex_spec (len : Nat) (i : Int) :
       have : ¬ ((-i).toNat ≤ len) := by omega
       simp [hn, this]
 
+/-! ### slices -/
+
+private theorem sliceBound_pos (len : Nat) (d : Int) (hd : 0 ≤ d ∧ d ≤ len) (v : Option Int) :
+    0 ≤ sliceBound len false d v ∧ sliceBound len false d v ≤ len := by
+  cases v with
+  | none => simpa [sliceBound] using hd
+  | some v =>
+    simp only [sliceBound, Bool.false_eq_true, if_false]
+    by_cases h1 : v < 0
+    · by_cases h2 : v + (len : Int) < 0 <;> simp [h1, h2] <;> omega
+    · by_cases h2 : v ≥ (len : Int) <;> simp [h1, h2] <;> omega
+
+private theorem sliceBound_neg (len : Nat) (d : Int) (hd : -1 ≤ d ∧ d ≤ (len : Int) - 1) (v : Option Int) :
+    -1 ≤ sliceBound len true d v ∧ sliceBound len true d v ≤ (len : Int) - 1 := by
+  cases v with
+  | none => simpa [sliceBound] using hd
+  | some v =>
+    simp only [sliceBound, if_true]
+    by_cases h1 : v < 0
+    · by_cases h2 : v + (len : Int) < 0 <;> simp [h1, h2] <;> omega
+    · by_cases h2 : v ≥ (len : Int) <;> simp [h1, h2] <;> omega
+
+/-- **Slices address positions exactly as in a list**: every selected position is a position of the section (no padding, no
+wrap-around), for every start / stop / step, negative ones included.  `Section.getSlice` returns positions only: taking a slice
+is a read, the section value is not part of the result (the real call builds a new list of the same item objects). -/
+theorem C15_slice_in_range (len : Nat) (a b : Option Int) (c : Int) (l : List Nat)
+    (h : pySlice len a b c = some l) : ∀ p ∈ l, p < len := by
+  unfold pySlice at h
+  split at h
+  · cases h
+  · rename_i hc0
+    have hc0' : c ≠ 0 := by simpa using hc0
+    split at h
+    · rename_i hpos
+      simp only [Option.some.injEq] at h
+      subst h
+      intro p hp
+      simp only [List.mem_map, List.mem_range] at hp
+      obtain ⟨k, hk, rfl⟩ := hp
+      have ha := sliceBound_pos len 0 (by omega) a
+      have hb := sliceBound_pos len len (by omega) b
+      generalize sliceBound len false 0 a = A at *
+      generalize sliceBound len false (len : Int) b = B at *
+      split at hk
+      · rename_i hab
+        have hk' : (k : Int) < (B - A - 1) / c + 1 := by omega
+        have : (k : Int) * c ≤ B - A - 1 := by
+          have h1 : (k : Int) ≤ (B - A - 1) / c := by omega
+          calc (k : Int) * c ≤ ((B - A - 1) / c) * c := Int.mul_le_mul_of_nonneg_right h1 (by omega)
+            _ ≤ B - A - 1 := Int.ediv_mul_le _ (by omega)
+        omega
+      · simp at hk
+    · rename_i hpos
+      have hneg : c < 0 := by omega
+      simp only [Option.some.injEq] at h
+      subst h
+      intro p hp
+      simp only [List.mem_map, List.mem_range] at hp
+      obtain ⟨k, hk, rfl⟩ := hp
+      have ha := sliceBound_neg len ((len : Int) - 1) (by omega) a
+      have hb := sliceBound_neg len (-1) (by omega) b
+      generalize sliceBound len true ((len : Int) - 1) a = A at *
+      generalize sliceBound len true (-1) b = B at *
+      split at hk
+      · rename_i hab
+        have h1 : (k : Int) ≤ (A - B - 1) / (-c) := by omega
+        have : (k : Int) * (-c) ≤ A - B - 1 := by
+          calc (k : Int) * (-c) ≤ ((A - B - 1) / (-c)) * (-c) := Int.mul_le_mul_of_nonneg_right h1 (by omega)
+            _ ≤ A - B - 1 := Int.ediv_mul_le _ (by omega)
+        have h2 : (k : Int) * c = -((k : Int) * (-c)) := by rw [Int.mul_neg, Int.neg_neg]
+        have h3 : 0 ≤ (k : Int) * (-c) := Int.mul_nonneg (by omega) (by omega)
+        omega
+      · simp at hk
+
+private theorem sliceBound_nat (len v : Nat) (d : Int) (h : v ≤ len) : sliceBound len false d (some (v : Int)) = v := by
+  simp only [sliceBound, Bool.false_eq_true, if_false]
+  have h0 : ¬ ((v : Int) < 0) := by omega
+  by_cases h2 : (v : Int) ≥ (len : Int)
+  · simp [h0, h2]; omega
+  · simp [h0, h2]
+
+/-- positions of a forward slice with unit step between two resolved bounds -/
+private theorem pySlice_step1 (len : Nat) (a b : Option Int) :
+    pySlice len a b 1 = some ((List.range (sliceBound len false len b - sliceBound len false 0 a).toNat).map
+      fun (k : Nat) => (sliceBound len false 0 a + (k : Int)).toNat) := by
+  simp only [pySlice]
+  generalize sliceBound len false 0 a = A
+  generalize sliceBound len false (len : Int) b = B
+  have h1 : ((1 : Int) == 0) = false := by decide
+  simp only [h1, Bool.false_eq_true, if_false, Int.mul_one, Int.ediv_one]
+  have h2 : (1 : Int) > 0 := by decide
+  simp only [h2, if_true]
+  by_cases hab : A < B
+  · simp only [hab, if_true]
+    have : (B - A - 1 + 1).toNat = (B - A).toNat := by congr 1; omega
+    rw [this]
+  · simp only [hab, if_false]
+    have : (B - A).toNat = 0 := by omega
+    rw [this]
+
+/-- `s[:]` : every position, in order -/
+theorem C15_slice_full (len : Nat) : pySlice len none none 1 = some (List.range len) := by
+  rw [pySlice_step1]
+  simp only [sliceBound]
+  congr 1
+  apply List.ext_getElem
+  · simp
+  · intro i h1 h2; simp
+
+/-- `s[a:b]` with `0 ≤ a ≤ b ≤ len` : the positions `a, a+1, …, b-1` -/
+theorem C15_slice_contiguous (len a b : Nat) (hab : a ≤ b) (hb : b ≤ len) :
+    pySlice len (some (a : Int)) (some (b : Int)) 1 = some ((List.range (b - a)).map (· + a)) := by
+  rw [pySlice_step1, sliceBound_nat len a 0 (by omega), sliceBound_nat len b len hb]
+  congr 1
+  have : ((b : Int) - (a : Int)).toNat = b - a := by omega
+  rw [this]
+  apply List.map_congr_left
+  intro k _
+  omega
+
+/-- `s[::-1]` : every position, last first -/
+theorem C15_slice_reverse (len : Nat) : pySlice len none none (-1) = some ((List.range len).map fun k => len - 1 - k) := by
+  simp only [pySlice, sliceBound]
+  have h1 : ((-1 : Int) == 0) = false := by decide
+  have h2 : ¬ ((-1 : Int) > 0) := by decide
+  simp only [h1, Bool.false_eq_true, if_false, h2, Int.neg_neg, Int.ediv_one]
+  by_cases h : (-1 : Int) < (len : Int) - 1
+  · simp only [h, if_true]
+    have : ((len : Int) - 1 - -1 - 1 + 1).toNat = len := by omega
+    rw [this]
+    congr 1
+    apply List.map_congr_left
+    intro k hk
+    have := List.mem_range.mp hk
+    omega
+  · have : len = 0 := by omega
+    subst this; simp
+
+/-- the section-level form of the three closed forms -/
+theorem C15_slice_section (s : Section) :
+    s.getSlice none none 1 = some (List.range s.items.length) ∧
+    s.getSlice none none (-1) = some ((List.range s.items.length).map fun k => s.items.length - 1 - k) ∧
+    (∀ a b : Nat, a ≤ b → b ≤ s.items.length →
+      s.getSlice (some (a : Int)) (some (b : Int)) 1 = some ((List.range (b - a)).map (· + a))) ∧
+    s.getSlice none none 0 = none :=
+  ⟨C15_slice_full _, C15_slice_reverse _, fun a b h1 h2 => C15_slice_contiguous _ a b h1 h2, by simp [Section.getSlice, pySlice]⟩
+
+example : pySlice 5 (some (-2)) none 1 = some [3, 4] ∧ pySlice 5 (some 5) (some 1) (-2) = some [4, 2] ∧
+    pySlice 4 (some 1) (some 4) 2 = some [1, 3] := by decide
+
 /-- non-vacuity: a concrete section with duplicates and case variants exercises the statements -/
 def exSec : Section := ⟨[mkItem ['A'] [] [] [], mkItem ['a'] [] [] []], true⟩
 example : exSec.contains (.str ['a']) = true ∧ exSec.getitem (.str ['a']) = .ok 0 ∧
